@@ -422,3 +422,95 @@ UNITS += [
          assumptions=["atomic_add treated as sequential read-modify-write"],
          note="make_track_id: returns the event's counter and increments it (consecutive, hence unique ids per event); other events' counters untouched"),
 ]
+
+
+# ---------------------------------------------------------------------------
+# InitTracksExecutor: which initializer, which vacancy, which parent (index slice of operator())
+# ---------------------------------------------------------------------------
+from vkit.extract import IIFE, NamedLambda  # noqa: E402
+
+ITE = "src/celeritas/track/detail/InitTracksExecutor.hh"
+ITE_MODEL = """
+enum { TO_none = 0, TO_init_charge = 1 };      /* TrackOrder: only `== TrackOrder::init_charge` is tested */
+typedef struct { size_type num_initializers, num_vacancies, num_secondaries; } CoreStateCounters;
+typedef struct { int track_order; size_type num_new_tracks; CoreStateCounters counters; size_type initializers_size, vacancies_size, parents_size, indices_size; } InitTracksExecutor;
+bool g_neutral;                    /* IsNeutral{params}(init): any answer */
+size_type g_indices_val;           /* ghost: the value read from data.indices (a position among the new tracks' initializers: < num_new_tracks, assumed contract of partition_initializers) */
+size_type g_init_idx, g_vac_idx, g_parent_idx, g_indices_idx;   /* ghost: the positions read */
+bool g_parent_read;
+static size_type DATA_indices(InitTracksExecutor const* self, size_type i) { __CPROVER_assert(i < self->indices_size, "celer_expect: Collection::operator[] indices i < size"); g_indices_idx = i; return g_indices_val; }
+static size_type DATA_initializers(InitTracksExecutor const* self, size_type i) { __CPROVER_assert(i < self->initializers_size, "celer_expect: Collection::operator[] initializers i < size"); g_init_idx = i; return i; }
+static size_type DATA_vacancies(InitTracksExecutor const* self, size_type i) { __CPROVER_assert(i < self->vacancies_size, "celer_expect: Collection::operator[] vacancies i < size"); g_vac_idx = i; return i; }
+static size_type DATA_parents(InitTracksExecutor const* self, size_type i) { __CPROVER_assert(i < self->parents_size, "celer_expect: Collection::operator[] parents i < size"); g_parent_idx = i; g_parent_read = 1; return i; }
+"""
+ITE_RULES = [
+    Rule(r"auto const& data = state->init;", "", 1, note="state reference"),
+    Rule(r"params->init\.track_order == TrackOrder::init_charge", "self->track_order == TO_init_charge", "+", note="enum class value (bound)"),
+    Rule(r"data\.indices\[TrackSlotId\(", "DATA_indices(self, (", "*", note="Collection[TrackSlotId(i)] -> bounds assertion + ghost record"),
+    Rule(r"TrackInitializer const& init = data\.initializers\[ItemId<TrackInitializer>\(", "size_type init = DATA_initializers(self, (", 1, note="Collection[ItemId(i)] -> bounds assertion + ghost record (the initializer itself is outside this slice)"),
+    Rule(r"CoreTrackView vacancy\{\s*\*params, \*state, ", "size_type vacancy = (", 1, note="view construction -> the slot it is bound to"),
+    Rule(r"\}\(\)\};", "}());", 1, note="end of the view construction"),
+    Rule(r"data\.vacancies\[TrackSlotId\(", "DATA_vacancies(self, (", "*", note="Collection[TrackSlotId(i)] -> bounds assertion + ghost record"),
+    Rule(r"data\.parents\[TrackSlotId\(", "DATA_parents(self, (", "*", note="Collection[TrackSlotId(i)] -> bounds assertion + ghost record"),
+    Rule(r"\)\]", "))", "*", note="closing of the lowered subscripts"),
+    Rule(r"IsNeutral\{params\}\(init\)", "g_neutral", "*", note="charge predicate of the initializer: any answer"),
+    Rule(r"data\.parents\.size\(\)", "self->parents_size", "*", note="Collection::size()"),
+    Rule(r"return TrackSlotId\{\};", "return INVALID_ID;", "*", note="default OpaqueId = invalid"),
+    Rule(r"auto parent_id = ", "size_type parent_id = ", (0, 1), note="auto"),
+    IIFE(["size_type", "size_type"]),
+    NamedLambda("get_idx", "size_type"),
+    Rule(r"(?<![\w.>])counters\.", "self->counters.", "*", note="member"),
+    Rule(r"(?<![\w.>])num_new_tracks\b", "self->num_new_tracks", "*", note="member"),
+] + UT_RULES
+
+
+def build_init_tracks_indices(ctx):
+    s1 = ctx.span(ITE, r"CELER_EXPECT\(tid < num_new_tracks\);", r"\}\(\)\};", [], name="InitTracksExecutor::operator() [initializer and vacancy selection]")
+    s2 = ctx.span(ITE, r"auto parent_id = \[&\] \{", r"\}\(\);", [], name="InitTracksExecutor::operator() [parent selection]")
+    from vkit.extract import strip_comments
+    text = strip_comments(s1.body) + "\n" + strip_comments(s2.body)
+    rep = []
+    for r in ITE_RULES:
+        text = r.apply(text, rep, "InitTracksExecutor::operator() [index slice]")
+    ctx.report.extend(rep)
+    pb, pp = piece_index_before(ctx), piece_index_partitioned(ctx)
+    return (HDR + ID_TYPES + ITE_MODEL + IB_CONTRACT + ";\n"
+            + "size_type index_partitioned(size_type num_new_tracks, size_type num_vacancies, bool get_from_front, ThreadId tid)\n"
+            "__CPROVER_requires(tid != INVALID_ID && tid < num_new_tracks && num_new_tracks <= num_vacancies)\n__CPROVER_assigns()\n"
+            "__CPROVER_ensures(__CPROVER_return_value < num_vacancies && __CPROVER_return_value == (get_from_front ? num_new_tracks - 1 - tid : num_vacancies - 1 - tid))\n;\n" + """
+void ITE_indices(InitTracksExecutor const* self, ThreadId tid)
+__CPROVER_requires(self != 0 && tid != INVALID_ID && tid < self->num_new_tracks)    /* own CELER_EXPECT */
+/* what extend_from_* / the step's bookkeeping establish (assumed here): the new tracks' initializers, vacancies and parents exist */
+__CPROVER_requires(self->num_new_tracks <= self->counters.num_initializers && self->counters.num_initializers <= self->initializers_size
+                   && self->num_new_tracks <= self->counters.num_vacancies && self->counters.num_vacancies <= self->vacancies_size
+                   && self->num_new_tracks <= self->parents_size && self->num_new_tracks <= self->indices_size && self->counters.num_secondaries <= self->parents_size)
+__CPROVER_requires(g_indices_val < self->num_new_tracks && !g_parent_read)
+__CPROVER_requires(self->initializers_size <= (size_type)1 << 40 && self->parents_size <= (size_type)1 << 40)
+__CPROVER_assigns(g_init_idx, g_vac_idx, g_parent_idx, g_indices_idx, g_parent_read)
+/* unsorted: thread t takes the t-th initializer, vacancy and parent counted from the BACK (injective in t) */
+__CPROVER_ensures(self->track_order != TO_init_charge ==> (g_init_idx == self->counters.num_initializers - 1 - tid && g_vac_idx == self->counters.num_vacancies - 1 - tid))
+__CPROVER_ensures((self->track_order != TO_init_charge && tid < self->counters.num_secondaries) ==> (g_parent_read && g_parent_idx == self->parents_size - 1 - tid))
+/* sorted by charge: the initializer / parent position comes from the partitioned index array, entry counted from the back; the vacancy from index_partitioned */
+__CPROVER_ensures(self->track_order == TO_init_charge ==> (g_indices_idx == self->num_new_tracks - 1 - tid && g_init_idx == g_indices_val + self->counters.num_initializers - self->num_new_tracks
+                   && g_vac_idx == (g_neutral ? self->num_new_tracks - 1 - tid : self->counters.num_vacancies - 1 - tid)))
+__CPROVER_ensures((self->track_order == TO_init_charge && tid < self->counters.num_secondaries) ==> (g_parent_read && g_parent_idx == g_indices_val + self->parents_size - self->num_new_tracks))
+/* a primary (no parent) never reads the parent array */
+__CPROVER_ensures(!(tid < self->counters.num_secondaries) ==> !g_parent_read)
+{
+""" + text + """
+}
+void h_ite(void)
+{
+    InitTracksExecutor e; ThreadId tid; unsigned r; g_neutral = (r != 0);
+    ITE_indices(&e, tid);
+    VERIF_CANARY();
+}
+""")
+
+
+UNITS += [
+    Unit("c02_init_tracks_indices", build_init_tracks_indices, "h_ite", enforce="ITE_indices", replace=["index_before", "index_partitioned"], timeout=300, backend=["sat", "kissat", "cvc5"],
+         must_have=[r"ITE_indices.postcondition", r"celer_expect", r"index_before.precondition", r"index_partitioned.precondition"], checks=["--bounds-check", "--pointer-check", "--unsigned-overflow-check"],
+         assumptions=["the values in data.indices are positions among the step's new initializers (< num_new_tracks; produced by partition_initializers)", "counters describe the filled parts of the arrays (established by the extend_from_* actions, C16/C02 units)"],
+         note="InitTracksExecutor::operator() index slice (two spans of the real text): every read of initializers / vacancies / parents / indices is in bounds and at the position that makes the assignment thread -> initializer/vacancy/parent injective (counted from the back; via the partitioned index array when sorting by charge); primaries never read the parent array; callee preconditions hold"),
+]
